@@ -83,5 +83,5 @@ let err_name (e : err) : string =
   | ValueError -> "ValueError" | TypeError -> "TypeError" | KeyError -> "KeyError"
   | IndexError -> "IndexError" | OverflowError -> "OverflowError"
   | NotImplementedErr -> "NotImplementedError" | RecursionErr -> "RecursionError"
-  | AttributeErr -> "AttributeError" | OutOfFuel -> "OutOfFuel"
+  | AttributeErr -> "AttributeError" | OutOfFuel -> "OutOfFuel" | UnicodeErr -> "UnicodeDecodeError"
   | Pyctr n -> "Pyctr" ^ string_of_int (int_of_z n)
